@@ -153,7 +153,7 @@ class Work:
         m = re.search(r"Error: Action property (\S+) is violated", out)
         if m:
             res["violated"] = m.group(1)
-        m = re.search(r"Error: Temporal properties were violated", out)
+        m = re.search(r"Error: Temporal propert(?:ies were|y \S+ was) violated", out)
         if m:
             res["violated"] = "temporal"
         if "violated" not in res and re.search(r"^Error: (?!Postcondition)", out, re.M) and not res["timeout"]:
